@@ -86,7 +86,7 @@ def run_checks(d: Path, tier: str):
     try:
         for p in props:
             t0 = time.time()
-            rc, o = sh(["./check", p, "--tier", tier], cwd=V, timeout=7200)
+            rc, o = sh(["./check", p, "--tier", tier], cwd=V, timeout=3000)
             lines = [l for l in o.splitlines() if l.startswith(("VIOLATION", "OK ", "KNOWN-FINDING", "ERROR"))]
             vio = [l for l in lines if l.startswith("VIOLATION")]
             replay = None
